@@ -11,64 +11,64 @@ BASELINE = ("cd /repo && /venv/bin/python -m pytest -ra -q -p no:cacheprovider -
 # id -> (technique, decided clauses, not decided, design section)
 CLAIMS = {
     "C01": ("AST dataflow (pipeline order), abstract interpretation of the six common logic functions over bucket-emptiness valuations, guard algebra on make_patch, rule-text grammar analysis (reverse template vs capture groups) of every shipped .rul row",
-            "pipeline order make_diff->make_pre->patch_from_pre with one rulebook; decision tables of default/ordered/rewrite/permanent/ignore_changes/undo_redo; block attachment in make_patch; reverse template agrees with key groups for every shipped rule row",
+            "pipeline order make_diff->make_pre->patch_from_pre with one rulebook; decision tables of default/ordered/rewrite/permanent/ignore_changes/undo_redo; block attachment in make_patch; reverse template agrees with key groups for every shipped rule row; no rule-less deletion; every row reaches its diff logic and every matching rule is collected (single exit of call_diff_logic, _find_rules_matches collects all); sticky disorder flag on ADDED and MOVED",
             "that executing the emitted commands on a device model reaches the target for all rulebooks and chains (value-level)"),
     "C02": ("AST guard algebra + reaching definitions on apply_acl/apply_acl_diff/make_diff, call-site table of make_diff, scheme-table facts",
-            "every ACL reaches apply_acl_diff; unmatched rows dropped; REMOVED->AFFECTED rewrite under all(cant_delete); cant_delete defaults/uniters; device call sites pass both ACLs",
+            "every ACL reaches apply_acl_diff; unmatched rows dropped; REMOVED->AFFECTED rewrite under all(cant_delete); cant_delete defaults/uniters; device call sites pass both ACLs; ACL rule objects are not written by the filter (field-insensitive may-mutate, in depth); ACL patterns compiled without flags; ACL matching keeps no module/class state; only --no-acl switches the ACL step off",
             "ACL coverage of command text produced by logic functions at run time; untouched neighbours on all inputs"),
     "C03": ("constant-table agreement, guard algebra on base_diff, sibling-statement checks, effect lint on standard diff logics",
-            "Op/sign tables agree; base_diff guard table; unknown rows leave both sides; strip/mark shape; renderers emit every entry; standard diff logics never delete entries",
+            "Op/sign tables agree; base_diff guard table; unknown rows leave both sides; strip/mark shape; renderers emit every entry; standard diff logics never delete entries; groups leave in the order of the diff as given; rewrite clear test over all depths; sticky disorder flag; case folded only under the row's own %ignore_case",
             "the reconstruction law on all trees"),
     "C04": ("class-hierarchy resolution of join/_blocks, typestate pairing of BlockBegin/BlockEnd, role-flow of RouterOS section paths, splitter/formatter agreement at call sites",
-            "configs rendered without block-exit words; block markers paired; indentation follows markers; parser gets the splitter of the device's own formatter; RouterOS section paths accumulate level by level",
+            "configs rendered without block-exit words; block markers paired; indentation follows markers; parser gets the splitter of the device's own formatter; RouterOS section paths accumulate level by level; terminator predicate table; pairwise look-ahead padded; the row stream is rendered in order without de-duplication",
             "vendor-specific syntax halves and equality on values"),
     "C05": ("path-sensitive typestate over _stripped_indents (every dedent path passes the consistency test or raises), guard algebra on _filtered_lines / parse_to_tree",
-            "refusal of inconsistent dedent and negative top indent on every path; comments/blank lines never become rows; duplicates merge",
+            "refusal of inconsistent dedent and negative top indent on every path; comments/blank lines never become rows; duplicates merge; abstract stack semantics of _stacked; both representations of the open-block stack; the default splitter hands the lines on as given",
             "tree equality with a reference offside parser on all texts"),
     "C06": ("reaching definitions + guard algebra + control-dependence on apply_acl/_select_match/_compile_acl/_merge_toplevel",
-            "output keys are iterated input keys in order; strict mode raises naming the path and is forwarded to every depth; global rules inherited; children rules independent of which match wins; merges drop nothing",
+            "output keys are iterated input keys in order; strict mode raises naming the path and is forwarded to every depth; global rules inherited; children rules independent of which match wins; merges drop nothing; candidates collected for both regexp kinds over all rules with inherited global rules; matching leaves the compiled ACL as it found it (in depth, *args included); a row is cut only where a parameter was recognised",
             "apply_acl == ref_filter, idempotence, the specificity metric's value-level choice"),
     "C07": ("regex-AST (re._parser) language check of compile_row_regexp's macro fragments, sibling agreement of the three reverse forms, grammar lint of every shipped/embedded rule row, parameter-scheme membership",
-            "macro fragment languages; reverse-form siblings have both arms; every rule token well-formed; %params known; match_deploy_rule descends path-wise",
+            "macro fragment languages; reverse-form siblings have both arms; every rule token well-formed; %params known; match_deploy_rule descends path-wise; parameter/row cut agree and happen only with recognised parameters; the row handed on is single-spaced; compilers hand compile_row_regexp the row as written",
             "extensional equality with a reference matcher on all patterns and rows"),
     "C08": ("AST shape + reaching definitions on PatchTree.sort/make_patch/Orderer.order_config/get_order, sibling agreement of the two sort keys, duplicate-row lint of .order texts",
-            "sorting only permutes (no filter, stable, recursive); key locality and sign convention; removal before re-creation; get_order branch table; no duplicate sibling rows in .order files",
+            "sorting only permutes (no filter, stable, recursive); key locality and sign convention; removal before re-creation; get_order branch table; no duplicate sibling rows in .order files; parameters pass through to the compiled ordering rule; get_order is asked about the row as the logic yielded it; one-pass and two-pass forms of make_patch",
             "rank order on all inputs; idempotence on values"),
     "C09": ("guard algebra over every apply-logic function, parameter plumbing (call-graph dataflow of do_commit), loop-shape checks on apply_deploy_rulebook, class-hierarchy pairing of patch/cmd_paths, container-kind check",
-            "commit commands guarded by do_commit; do_commit plumbed from --dont-commit to every consumer (positional binding checked against signatures); one Command per path in order; patch/cmd_paths defined together and multiplicity-preserving; default timeouts agree",
+            "commit commands guarded by do_commit; do_commit plumbed from --dont-commit to every consumer (positional binding checked against signatures); one Command per path in order; patch/cmd_paths defined together and multiplicity-preserving; default timeouts agree; descend guard of match_deploy_rule (also through a per-level helper); every dialog of the matched rule becomes a question",
             "equality of shown text and sent stream on all trees"),
     "C10": ("reaching definitions + exception-flow on _run_partial_generator/old_new, flag plumbing, fold shape, abstract-row containment (yield vs own ACL) for shipped generators",
-            "fatal ACL on generator output at every depth and error conversion; exclusivity flag plumbing and the per-generator AND of flags; union fold; ACL tagging; yield within own ACL for shipped generators",
+            "fatal ACL on generator output at every depth and error conversion; exclusivity flag plumbing and the per-generator AND of flags; union fold; ACL tagging; yield within own ACL for shipped generators; block_if/multiblock_if open their block iff the condition holds, one yield; list arms of merge_dicts concatenate",
             "behaviour of arbitrary user generators; union equality on values"),
     "C11": ("reaching definitions (set-difference provenance) and contradiction rule (whole-key reset must consult UNCHANGED)",
-            "removal commands derive from old-new, additions from new-old; whole-key reset consults the UNCHANGED bucket; parse/expand pairing per vendor",
+            "removal commands derive from old-new, additions from new-old; whole-key reset consults the UNCHANGED bucket; parse/expand pairing per vendor; memoised expand results are not mutated; inclusive ranges in collapse; the row parser returns what the rows list; removal set excludes ids of rows that stay where rows restate each other; whole-key resets only when no row of the key stays; re-enter only blocks of ids that stay",
             "simulate(cmds,S_old)==S_new on all sets"),
     "C12": ("typestate/pairing over Parallel.irun and _pool_worker (STOP per worker, one put per task before retire, drained-queue exit), partition check on run",
-            "one STOP per started worker; one result put per task before retire/exit; the parent leaves the loop only on a drained queue; success/fail partition",
+            "one STOP per started worker; one result put per task before retire/exit; the parent leaves the loop only on a drained queue; success/fail partition; dequeued results are delivered before the loop moves on; what crosses the pipe is plain data; results are labelled with the submitted id; no worker is started after the task queue was closed",
             "delivery under all interleavings (needs an explicit-state model: another family)"),
     "C13": ("reaching definitions, taint (document keys -> JsonPointer) and may-mutate effect analysis with alias tracking on annlib/jsontools.py",
-            "patch operation order preserved; pointers built from escaped keys; inputs not mutated; writes/deletions only at ACL-resolved pointers",
+            "patch operation order preserved; pointers built from escaped keys; inputs not mutated; writes/deletions only at ACL-resolved pointers; move operations; presence never decided by a None sentinel; empty objects are created only where the member is missing or null; the delete step removes object members only",
             "the three equalities on documents"),
     "C14": ("class-hierarchy pairing acl_<v>/run_<v>, abstract-row containment against the ACL literal, path-sensitive typestate yield->raise per action with propositional path consistency, naming provenance",
-            "acl/run pairing; yield within own ACL; no raise after a yield inside one action/condition; names from the shared naming functions",
+            "acl/run pairing; yield within own ACL; no raise after a yield inside one action/condition; names from the shared naming functions; ACL names and de-duplication keys; a list referred to by name is collected by get_used_community_lists; the shared naming function is the plain join",
             "output parses back to the yielded nesting; refs subset of defs on values"),
     "C15": ("sibling-expression symmetry, role-flow dataflow, type-level merger table over all BaseMeshModel fields, guard shape of mergers, exception surfacing",
-            "orientation symmetry in lookups; handler(left,right) role consistency; role flow into Peer; every DTO field merger order-insensitive; conflicts surfaced as ValueError",
+            "orientation symmetry in lookups; handler(left,right) role consistency; role flow into Peer; every DTO field merger order-insensitive; conflicts surfaced as ValueError; interface requests compared with None; the merge key does not depend on the accumulator; memos keep the orientation of what they store",
             "address/AS equality on topologies; permutation invariance on values"),
     "C16": ("call-graph discovery of logic functions reading UNCHANGED, flow-sensitive provenance of make_pre arguments, stage-sequence agreement of the two front ends, ownership (pre consumed by patch builder not displayed)",
-            "no strip_unchanged upstream of make_pre on a patch path while any logic reads UNCHANGED; stage sequence and flag agreement of both front ends; a consumed pre is not rendered afterwards",
+            "no strip_unchanged upstream of make_pre on a patch path while any logic reads UNCHANGED; stage sequence and flag agreement of both front ends; a consumed pre is not rendered afterwards; the un-stripped diff reaches the patch builder intact; both front ends diff the same trees for the same hardware; the file workers have no shortcut before the diff/patch computation",
             "equality of outputs on all inputs"),
     "C17": ("sibling agreement of the three completions, guard algebra on implicit.config, offside/grammar lint of every embedded default text on every hardware branch, provenance of the inserted block value",
-            "old/new/safe_new completed identically, before ACL, explicit first; guard table of implicit.config; default texts well-formed on every hw branch; a default block is inserted with its nested defaults",
+            "old/new/safe_new completed identically, before ACL, explicit first; guard table of implicit.config; default texts well-formed on every hw branch; a default block is inserted with its nested defaults; compiled rules are memoised under a complete key; overlapping sibling default rules bring the same nested defaults; every definition of the matching lines is the regexp filter",
             "absence of spurious commands on all trees"),
     "C18": ("exhaustive data analysis: devdb addressable-name table vs every hw.* chain (templates and Python), resolution and signature check of every %logic/%diff_logic/%apply_logic, Mako branch enumeration per devdb sequence with well-formedness of the selected text, vendor-match specificity, cache-key coverage",
-            "every hw chain addressable; every named function resolves with a compatible signature; every reachable branch combination yields a well-formed rule tree; devdb prefix-closed with parsing regexes; vendor match specificity strict; cache keys cover what templates read",
+            "every hw chain addressable; every named function resolves with a compatible signature; every reachable branch combination yields a well-formed rule tree; devdb prefix-closed with parsing regexes; vendor match specificity strict; cache keys cover what templates read; no load-time import cycle among rulebook logic modules; two-phase claim of short forms; resolution model->vendor is stateless and caches store results only",
             "determinism of Mako and re themselves"),
     "C19": ("guard algebra with comparison normalisation on add_entire, decision table of PCDeployerJob.parse_result, sibling agreement of the changed-file predicate, provenance of uploaded bytes",
-            "priority guard; upload/reload decision table; changed-file predicate is content (in)equality in every front end; uploaded bytes are the generated content; safe filter",
+            "priority guard; upload/reload decision table; changed-file predicate is content (in)equality in every front end; uploaded bytes are the generated content; safe filter; priority default; per-line comparison without rewriting; Entire path normalised in both places",
             "what difflib prints; behaviour of user generators"),
     "C20": ("escape-point/shield analysis (deep copies at dynamic-callee boundaries), inter-procedural may-mutate effects over the registered logic functions, hidden-state lint over the call-graph closure, cache purity/key completeness",
-            "no protected input or shared compiled object reaches a mutating use unshielded; no global/mutable-default state in the closure; cached functions pure with complete keys",
+            "no protected input or shared compiled object reaches a mutating use unshielded; no global/mutable-default state in the closure; cached functions pure with complete keys; value helpers pure in depth; memoised results are not mutated nor handed to mutators; hand-written memos (recognised structurally) keyed by all parameters; no class-level containers written through self",
             "equality of results across histories (the rules are what makes it hold)"),
 }
 
